@@ -46,4 +46,3 @@ package literal
 //@   loop 0: invariant true
 //@ func anyAssemble$4
 //@   loop 0: invariant true
-
